@@ -32,6 +32,7 @@ import (
 	"unicode"
 	"unicode/utf8"
 
+	mockerytemplate "github.com/vektra/mockery/v3/template"
 	"github.com/vektra/mockery/v3/template_funcs"
 )
 
@@ -51,6 +52,25 @@ type In struct {
 	Files map[string]string `json:"files"`
 	Dirs  []string          `json:"dirs"`
 	Cases []Case            `json:"cases"`
+	Hist  *Hist             `json:"hist,omitempty"`
+}
+
+// Hist asks for the history mode: evaluate Sample, use the library the way mockery itself does
+// (create Templates file:// templates through mockery's own constructor template.New in a
+// directory that contains the Decoys, execute them, render config-style templates), then
+// evaluate Sample again.  The function map is process-wide: nothing may differ.
+type Hist struct {
+	Sample    []Case            `json:"sample"`
+	Decoys    map[string]string `json:"decoys"`
+	Templates int               `json:"templates"`
+}
+type HistRes struct {
+	Before    []Out    `json:"before"`
+	After     []Out    `json:"after"`
+	EmbBefore []string `json:"emb_before"`
+	EmbAfter  []string `json:"emb_after"`
+	KeysDiff  []string `json:"keys_diff"`
+	Log       []string `json:"log"`
 }
 type Out struct {
 	K string   `json:"k"`
@@ -64,6 +84,7 @@ type Res struct {
 	Outs []Out     `json:"outs"`
 	Refs []*Out    `json:"refs"`
 	Utab [][]int64 `json:"utab"`
+	Hist *HistRes  `json:"hist,omitempty"`
 }
 
 func unhex(s string) string {
@@ -281,6 +302,135 @@ func refCase(c Case) *Out {
 	return nil
 }
 
+// embText writes the application as template text with literal arguments (nil: not expressible).
+func embText(c Case) *string {
+	parts := []string{c.Fn}
+	for _, a := range c.Args {
+		switch {
+		case a.S != nil:
+			parts = append(parts, strconv.Quote(unhex(*a.S)))
+		case a.I != nil:
+			parts = append(parts, *a.I)
+		default:
+			return nil
+		}
+	}
+	t := "{{ printf \"%q\" (" + strings.Join(parts, " ") + ") }}"
+	return &t
+}
+
+// runEmbedded evaluates the application in a fresh template created by mockery's constructor
+// under a non-file name (what an embedded template sees); the observable is the rendered text
+// or "ERR".
+func runEmbedded(c Case) (res string) {
+	defer func() {
+		if r := recover(); r != nil {
+			res = "CRASH " + fmt.Sprint(r)
+		}
+	}()
+	t := embText(c)
+	if t == nil || c.Fn == "randInt" {
+		return "-"
+	}
+	tm, err := mockerytemplate.New(*t, "embedded-probe")
+	if err != nil {
+		return "ERR parse"
+	}
+	var buf bytes.Buffer
+	if err := tm.Execute(&buf, mockerytemplate.Data{}); err != nil {
+		return "ERR"
+	}
+	return hx(buf.String())
+}
+
+func keySet() map[string]bool {
+	m := map[string]bool{}
+	for k := range template_funcs.FuncMap {
+		m[k] = true
+	}
+	return m
+}
+
+func runHistory(h *Hist) *HistRes {
+	r := &HistRes{Log: []string{}, KeysDiff: []string{}}
+	keys0 := keySet()
+	for _, c := range h.Sample {
+		r.Before = append(r.Before, runCase(c))
+		r.EmbBefore = append(r.EmbBefore, runEmbedded(c))
+	}
+	tdir, err := os.MkdirTemp("", "drvfuncs-templ")
+	if err != nil {
+		panic(err)
+	}
+	defer os.RemoveAll(tdir)
+	for n, c := range h.Decoys {
+		p := filepath.Join(tdir, n)
+		if err := os.MkdirAll(filepath.Dir(p), 0o755); err != nil {
+			panic(err)
+		}
+		if err := os.WriteFile(p, []byte(unhex(c)), 0o644); err != nil {
+			panic(err)
+		}
+	}
+	// 1. templated config values, rendered the way package config does it
+	for _, text := range []string{"{{ getenv \"A\" }}/{{ .X | lower }}", "{{ readFile \"f.txt\" | trimSpace }}", "mocks_{{ snakecase .X }}"} {
+		tm, err := template.New("config-template").Funcs(template_funcs.FuncMap).Parse(text)
+		if err != nil {
+			r.Log = append(r.Log, "config parse: "+err.Error())
+			continue
+		}
+		var buf bytes.Buffer
+		if err := tm.Execute(&buf, map[string]any{"X": "SomeName"}); err != nil {
+			r.Log = append(r.Log, "config exec error")
+		} else {
+			r.Log = append(r.Log, "config -> "+buf.String())
+		}
+	}
+	// 2. file:// templates through mockery's own constructor
+	for i := 0; i < h.Templates; i++ {
+		name := filepath.Join(tdir, fmt.Sprintf("t%d.templ", i))
+		text := "// {{ getenv \"A\" }} {{ exported \"name\" }}\n{{ if false }}{{ readFile \"partial.txt\" }}{{ end }}"
+		if err := os.WriteFile(name, []byte(text), 0o644); err != nil {
+			panic(err)
+		}
+		func() {
+			defer func() {
+				if rec := recover(); rec != nil {
+					r.Log = append(r.Log, "file template crashed: "+fmt.Sprint(rec))
+				}
+			}()
+			tm, err := mockerytemplate.New(text, "file://"+name)
+			if err != nil {
+				r.Log = append(r.Log, "file template parse: "+err.Error())
+				return
+			}
+			var buf bytes.Buffer
+			if err := tm.Execute(&buf, mockerytemplate.Data{}); err != nil {
+				r.Log = append(r.Log, "file template exec error")
+			} else {
+				r.Log = append(r.Log, "file template -> "+buf.String())
+			}
+		}()
+	}
+	for _, c := range h.Sample {
+		r.After = append(r.After, runCase(c))
+		r.EmbAfter = append(r.EmbAfter, runEmbedded(c))
+	}
+	keys1 := keySet()
+	for k := range keys0 {
+		if !keys1[k] {
+			r.KeysDiff = append(r.KeysDiff, "-"+k)
+		}
+	}
+	for k := range keys1 {
+		if !keys0[k] {
+			r.KeysDiff = append(r.KeysDiff, "+"+k)
+		}
+	}
+	sort.Strings(r.KeysDiff)
+	return r
+}
+
 func main() {
 	var in In
 	if err := json.NewDecoder(os.Stdin).Decode(&in); err != nil {
@@ -319,6 +469,9 @@ func main() {
 	for _, c := range in.Cases {
 		res.Outs = append(res.Outs, runCase(c))
 		res.Refs = append(res.Refs, refCase(c))
+	}
+	if in.Hist != nil {
+		res.Hist = runHistory(in.Hist)
 	}
 	// close the table under the simple case mappings (the model looks up mapped runes again)
 	for round := 0; round < 2; round++ {
